@@ -19,6 +19,7 @@ CLAIMS = {
  "C10": ("no silently overflowing machine arithmetic in the script-reachable numeric surface; checked fast paths with big-number promotion; canonical bignum / rational construction; float->integer casts range-checked; binary numeric arms read both operands", "operation census with guard-idiom discharge + simulated match decision trees over MIR"),
  "C11": ("eq/hash class agreement per kind; nested equality arms = top-level arms; cross-side membership; visited set keyed on both operands and never turning a revisit into inequality; order-independent hashing of hash collections; hash-union bias in every ownership arm; identity fields fed into Hash are compared by equality", "sibling arm classification + field-sensitive value flow over MIR"),
  "C12": ("reader recursion (call-graph cycles) reachable from the reader entry points; budget of byte-offset slicing sites in the reader", "SCC over the resolved call graph + confirmed-instance census"),
+ "C13": ("syntax-rules pattern matching and renaming, structural clauses only (hygiene proper — which binding an identifier of an expansion resolves to — is NOT decided): every non-ellipsis pattern consumes exactly one form in binder and matcher; the recursive pattern walkers descend into the same variants; every template binder is recorded, renamed and flagged (sibling agreement over the renamer's binder sites); a macro case is built only after template verification, renaming and pattern mangling; an expansion starts from cleared binding tables; the expander's scope layers are balanced on every successful exit; template walkers read every child of every node", "every-path / pairing / sibling-agreement / must-pass-through checks over MIR, type-directed traversal completeness"),
  "C14": ("a required module is compiled only after the compiled-module / file-metadata tables were consulted; compile_module registers the module; failed compilation restores the module table; unused-import pruning walks every module macro's templates; module identities are canonical paths. NOT decided: which names a module graph exposes", "dominator + every-path checks over MIR"),
  "C15": ("publish/retract pairing of the safepoint context; who may dereference a foreign thread; stop/resume reach every controller; safepoints enabled for every new thread; every park re-checks in a loop", "pairing + who-may-deref + on-a-cycle checks over MIR"),
  "C16": ("blocking primitives only inside safepoints; native loop back-edges poll; waits have a liveness exit; the world-stop mutex is only waited for inside a safepoint; parked threads are published", "who-may-call + derived lock set + reachability over MIR"),
@@ -28,7 +29,6 @@ CLAIMS = {
  "C20": ("no unguarded narrowing/sign-changing cast in conversions; lent-reference who-may-call, unconditional release and RAII pairing", "cast census with guard discharge + who-may-call over MIR + compile_fail witnesses"),
 }
 NA = {
- "C13": "hygiene is a property of renaming results over all macro definitions; the implementation is a textual prefix scheme with no pairing/exhaustiveness/ownership shape to check, and reserved-prefix disjointness does not hold by construction (DESIGN §5)",
 }
 old = json.load(open(os.path.join(V, "MANIFEST.json")))
 checks, na = [], []
